@@ -561,6 +561,9 @@ class Sum(monoidal.Sum, Diagram):
         return Sum(old.terms, old.dom, old.cod)
 
     def eval(self, contractor=None):
+        if not self.terms:
+            return Tensor.zeros(
+                Dim.upgrade(self.dom), Dim.upgrade(self.cod))
         return sum(term.eval(contractor=contractor) for term in self.terms)
 
 
